@@ -819,6 +819,107 @@ theorem primOK_vmCellSlice : PrimOK .vmCellSlice := by
       rw [if_neg (by omega), if_neg (by omega)]
 
 
+theorem cellDepth_mk (ty mask : Nat) (bits : List Bool) (refs : List Cell) :
+    cellDepth (.mk ty mask bits refs) = 1 + cellDepthList refs := by
+  rw [cellDepth]
+
+theorem cellDepthList_single (c : Cell) : cellDepthList [c] = cellDepth c := by
+  rw [cellDepthList, cellDepthList]; simp
+
+/-- what the snake encoder appends: a prefix of the bits and at most one reference holding the rest -/
+theorem snake_enc : ∀ (fuel : Nat) (bs : List Bool) (b b' : Builder),
+    Prim.encSnakeAux fuel bs b = .ok b' →
+    ∃ xs rs, b' = b.app xs rs ∧
+      (rs = [] ∧ xs = bs ∨
+       ∃ c, rs = [c] ∧ ∀ f, cellDepth c ≤ f → ∃ tail, Prim.decSnakeCell f c = .ok tail ∧ xs ++ tail = bs)
+  | 0, _, _, _, h => by simp [Prim.encSnakeAux] at h
+  | fuel + 1, bs, b, b', h => by
+    simp only [Prim.encSnakeAux] at h
+    split at h
+    · obtain ⟨b1, hb1, h2⟩ := bind_ok_inv h
+      obtain ⟨child, hc, h3⟩ := bind_ok_inv h2
+      have e1 := Builder.writeBits_ok hb1
+      have e3 := Builder.addRef_ok h3
+      obtain ⟨xs', rs', hch, hcase⟩ := snake_enc fuel _ Builder.empty child hc
+      refine ⟨bs.take (cellBits - b.bits.length), [child.toCell], by
+        rw [e3, e1, Builder.app_app]; simp, Or.inr ⟨_, rfl, ?_⟩⟩
+      intro f hf
+      have hcell : child.toCell = Cell.mk 0 0 xs' rs' := by
+        rw [hch]; simp [Builder.empty, Builder.app, Builder.toCell]
+      rw [hcell] at hf ⊢
+      rw [cellDepth_mk] at hf
+      cases f with
+      | zero => omega
+      | succ f =>
+        rcases hcase with ⟨rfl, rfl⟩ | ⟨c, rfl, hc'⟩
+        · refine ⟨_, ?_, List.take_append_drop _ _⟩
+          simp [Prim.decSnakeCell, tyLibrary]
+        · rw [cellDepthList_single] at hf
+          obtain ⟨tail, ht, hcat⟩ := hc' f (by omega)
+          refine ⟨xs' ++ tail, ?_, by rw [hcat]; exact List.take_append_drop _ _⟩
+          simp [Prim.decSnakeCell, tyLibrary, ht, bind, Outcome.bind, pure]
+    · have e := Builder.writeBits_ok h
+      exact ⟨bs, [], e, Or.inl ⟨rfl, rfl⟩⟩
+
+/-- the snake decoder on the tail of a cell that ends with the snake chunk -/
+theorem snake_dec (bs xs : List Bool) (rs : List Cell) (s : Slice) (h1 : s.bits = []) (h2 : s.refs = [])
+    (hcase : rs = [] ∧ xs = bs ∨
+       ∃ c, rs = [c] ∧ ∀ f, cellDepth c ≤ f → ∃ tail, Prim.decSnakeCell f c = .ok tail ∧ xs ++ tail = bs) :
+    ∃ s', Prim.decSnake (s.prepend xs rs) = .ok (bs, s') := by
+  rcases hcase with ⟨rfl, rfl⟩ | ⟨c, rfl, hc⟩
+  · exact ⟨{ ty := s.ty, mask := s.mask }, by simp [Prim.decSnake, Slice.prepend, h1, h2]⟩
+  · obtain ⟨tail, ht, hcat⟩ := hc (cellDepth c + 1) (by omega)
+    exact ⟨{ ty := s.ty, mask := s.mask }, by simp [Prim.decSnake, Slice.prepend, h1, h2, ht, bind, Outcome.bind, pure, hcat]⟩
+
+theorem primOK_snake : PrimOK .snake := by
+  intro v b b' _ hd he
+  cases v <;> simp only [Prim.inDom, Bool.false_eq_true] at hd
+  rename_i bs
+  simp only [Prim.enc, Prim.encSnake] at he
+  obtain ⟨xs, rs, hb, hcase⟩ := snake_enc _ bs b b' he
+  refine ⟨xs, rs, hb, ?_⟩
+  intro s _ hc
+  rcases hc with hng | ⟨h1, h2⟩
+  · simp [Prim.greedy] at hng
+  · obtain ⟨s', hs'⟩ := snake_dec bs xs rs s h1 h2 hcase
+    exact ⟨s', by simp [Prim.dec, hs', bind, Outcome.bind, pure], fun hng => by simp [Prim.greedy] at hng⟩
+
+theorem bytesOfBits_exact (bs : List UInt8) : bytesOfBits ((bytesToBits bs).length / 8) (bytesToBits bs) = bs := by
+  rw [bytesToBits_length, Nat.mul_div_cancel _ (by omega)]
+  have := bytesOfBits_bytesToBits bs []
+  rwa [List.append_nil] at this
+
+theorem primOK_bytesSnake : PrimOK .bytesSnake := by
+  intro v b b' _ hd he
+  cases v <;> simp only [Prim.inDom, Bool.false_eq_true] at hd
+  rename_i bs
+  simp only [Prim.enc, Prim.encSnake] at he
+  obtain ⟨xs, rs, hb, hcase⟩ := snake_enc _ (bytesToBits bs) b b' he
+  refine ⟨xs, rs, hb, ?_⟩
+  intro s _ hc
+  rcases hc with hng | ⟨h1, h2⟩
+  · simp [Prim.greedy] at hng
+  · obtain ⟨s', hs'⟩ := snake_dec (bytesToBits bs) xs rs s h1 h2 hcase
+    refine ⟨s', ?_, fun hng => by simp [Prim.greedy] at hng⟩
+    have hl : (bytesToBits bs).length % 8 = 0 := by rw [bytesToBits_length]; omega
+    simp [Prim.dec, hs', bind, Outcome.bind, pure, hl, bytesOfBits_exact]
+
+theorem primOK_text : PrimOK .text := by
+  intro v b b' _ hd he
+  cases v <;> simp only [Prim.inDom, Bool.false_eq_true] at hd
+  rename_i bs
+  simp only [Prim.enc, Prim.encSnake] at he
+  obtain ⟨xs, rs, hb, hcase⟩ := snake_enc _ (bytesToBits bs) b b' he
+  refine ⟨xs, rs, hb, ?_⟩
+  intro s _ hc
+  rcases hc with hng | ⟨h1, h2⟩
+  · simp [Prim.greedy] at hng
+  · obtain ⟨s', hs'⟩ := snake_dec (bytesToBits bs) xs rs s h1 h2 hcase
+    refine ⟨s', ?_, fun hng => by simp [Prim.greedy] at hng⟩
+    have hl : (bytesToBits bs).length % 8 = 0 := by rw [bytesToBits_length]; omega
+    simp [Prim.dec, hs', bind, Outcome.bind, pure, hl, bytesOfBits_exact, hd]
+
+
 /-- every hand-written codec marked `proved` has its round-trip lemma -/
 theorem primOK_of_proved : ∀ p : Prim, p.proved = true → PrimOK p
   | .unary, _ => primOK_unary
@@ -834,9 +935,9 @@ theorem primOK_of_proved : ∀ p : Prim, p.proved = true → PrimOK p
   | .accountStatus, _ => primOK_accountStatus
   | .accStatusChange, _ => primOK_accStatusChange
   | .computeSkipReason, _ => primOK_computeSkipReason
-  | .snake, h => by simp [Prim.proved] at h
-  | .bytesSnake, h => by simp [Prim.proved] at h
-  | .text, h => by simp [Prim.proved] at h
+  | .snake, _ => primOK_snake
+  | .bytesSnake, _ => primOK_bytesSnake
+  | .text, _ => primOK_text
   | .vmCellSlice, _ => primOK_vmCellSlice
   | .payloadV1toV4, _ => primOK_payloadV1toV4
   | .w5Actions, h => by simp [Prim.proved] at h
